@@ -59,6 +59,14 @@ ASSUMPTIONS = ['floating-point rounding is outside the model: comparison is exac
                'conjugate_gradient(_normal) and admm_linearized called again with the returned x are '
                'RESTARTS (direction p / z, u reset), modelled as such (stream cg_restart), not resumptions; '
                'cg_* theorems need a linear operator',
+               'ROUND 5: every anchored solver function is entered by a stratum (docs/covmap/C11.md). dca / '
+               'prox_dca: the split-run oracle in full, model = instances of ProxGradP.step. '
+               'accelerated_proximal_gradient, douglas_rachford_pd, gauss_newton, adam keep state in locals: '
+               'a second call is a RESTART and is checked as such (callback, first-step, niter=0, repeatability '
+               'oracles; models accRunSplit / DrP.runSplit), excluded from the resume claim. Default steps '
+               '(pdhg, landweber, douglas_rachford_pd without tau/sigma/omega) use a RANDOM power-method start: '
+               'compared with the explicit-step run under the same numpy seed only. Refused calls (argument '
+               'validation) must raise TypeError/ValueError before touching x',
                'proximal factories of the accelerated PDHG stream are written a second time in Lean '
                '(FSpec in Drivers/C11.lean); the gamma=none cases of that stream compare them with the '
                'real proximals and, through the constant machine, with the PSpec closed forms']
@@ -1271,10 +1279,10 @@ def family_cg_restart(ctx, r, exact, n, opaque=False):
     x0 = sl.dy_vec(r, d, 16, 8)
     special = r.random()
     spd = True
-    if special < 0.12:
+    if special < 0.2:
         rhs = M.dot(x0)                          # already solved: `return` before / in the first iteration
-        ctx.hit('model/cg_restart/early-return(start is the solution)')
-    elif special < 0.22 and variant == 'cg':
+        ctx.hit('model/cg_restart/early-return(start is the solution)/' + variant)
+    elif special < 0.3 and variant == 'cg':
         # symmetric INDEFINITE operator and a residual with <p, A p> = 0: `if inner_p_d == 0.0: return`
         M = np.diag([1.0, -1.0] + [1.0] * (d - 2))
         x0, rhs, spd = np.zeros(d), np.array([1.0, 1.0] + [0.0] * (d - 2)), False
@@ -1473,6 +1481,17 @@ def family_dca(ctx, r, exact, n, opaque=False):
     st, log, full = resume_oracle(ctx, p, n, runner, variant)
     if st == 'ok':
         check_callback(ctx, p, n, log, full[0], variant)
+        if log:
+            # the documented iteration, from the functionals' own maps (no solver, no model)
+            xs = unflat(space, p['x0'])
+            if variant == 'dca':
+                st_w, want = guarded(lambda: F.f.convex_conj.gradient(G.f.gradient(xs)))
+            else:
+                st_w, want = guarded(lambda: F.f.proximal(gamma)(xs + gamma * G.f.gradient(xs)))
+            dd = st_w if st_w != 'ok' else sl.arrays_differ([log[0]], [flat(want)])
+            if dd:
+                viol(ctx, '{} first iterate f={} g={}'.format(variant, p['fk'], p['gk']),
+                     'is not the documented step from x0: ' + str(dd), p, n=n)
     sig = ('model', 'dca', variant, p['fk'], p['gk'], steps_class(exact), n)
     nt = st == 'ok' and nontrivial(log, p['x0'])
     line = 'proxgrad pf={} gg={} gamma={} lam=1 x0={} n={}'.format(pf, gg, fs(mgamma), fl(p['x0']), n)
@@ -1540,6 +1559,10 @@ def family_dr_restart(ctx, r, exact, n, opaque=False):
     p0 = gen_adupdates(r, exact, False)
     Ls, Gs, m = p0['Ls'], p0['Gs'], p0['m']
     dom = Ls[0].domain
+    if r.random() < 0.1:
+        Ls, Gs, m = [], [], 0                   # no operators: the `len(L) > 0` else-branches
+        p0.update(opkind='none', gk='-')
+        ctx.hit('model/dr_restart/no-operators')
     F = sl.functional_zoo(r, dom, exact=exact)
     tau = sl.pick_step(r, exact)
     sigma = [sl.pick_step(r, exact) for _ in range(m)]
@@ -1578,6 +1601,7 @@ def family_dr_restart(ctx, r, exact, n, opaque=False):
                 ('differs' if st_f != 'ok' or sl.arrays_differ([full], [end]) else 'same'))
         # default step sizes
         which = r.choice(['both-default', 'tau-given', 'sigma-given'])
+    if st == 'ok' and m > 0:
         t_in = tau if which == 'tau-given' else None
         s_in = sigma if which == 'sigma-given' else None
         npseed = r.randint(0, 2 ** 31 - 1)
@@ -1819,7 +1843,7 @@ def family_refusals(ctx, r, exact, n, opaque=False):
         ('douglas_rachford_pd len(l)', lambda x: douglas_rachford_pd(x, f, [g], [A], 2, tau=0.5, sigma=[0.5], l=[g, g]), ok, X),
         ('douglas_rachford_pd lam out of range', lambda x: douglas_rachford_pd(x, f, [g], [A], 2, tau=0.5, sigma=[0.5], lam=2.5), ok, X),
         ('douglas_rachford_pd unknown keyword', lambda x: douglas_rachford_pd(x, f, [g], [A], 2, tau=0.5, sigma=[0.5], foo=1), ok, X),
-        ('douglas_rachford_pd_stepsize invalid entry', lambda x: douglas_rachford_pd_stepsize(['L']), ok, X),
+        ('douglas_rachford_pd_stepsize invalid entry', lambda x: douglas_rachford_pd_stepsize([None, 1.0]), ok, X),
     ]
     p = dict(solver='refusals', opkind='matrix{}x{}'.format(m, d), fk='-', gk='-', x0=x0, cseed=r.cseed,
              exact=exact, opaque=opaque)
@@ -1952,7 +1976,8 @@ EXPECTED_BRANCHES = [
     'model/dr_restart/l-given', 'model/dr_restart/l=None', 'model/dr_restart/lam=callable',
     'model/dr_restart/lam=number', 'oracle/dr_restart/stepsize=both-default',
     'oracle/dr_restart/stepsize=tau-given', 'oracle/dr_restart/stepsize=sigma-given',
-    'model/cg_restart/early-return(start is the solution)', 'model/cg_restart/early-return(inner_p_d == 0)',
+    'model/cg_restart/early-return(start is the solution)/cg', 'model/cg_restart/early-return(start is the solution)/cgn',
+    'model/cg_restart/early-return(inner_p_d == 0)', 'model/dr_restart/no-operators',
     'oracle/gauss_newton/repeatability', 'oracle/gauss_newton/linear-op', 'oracle/gauss_newton/nonlinear-op',
     'oracle/adam/steps', 'oracle/adam/stopped-by-tol', 'oracle/pdhg default steps/both-default',
     'oracle/pdhg default steps/tau-given', 'oracle/pdhg default steps/sigma-given',
